@@ -321,6 +321,14 @@ func (v *Vue) resolveArgument(ctx VueContext, arg string) any {
 		return val
 	}
 
+	// A path into an existing variable that ends in nothing (user.nick where the user has no
+	// nick, items[9]) is nothing - not the text of the path
+	if i := strings.IndexAny(arg, ".["); i > 0 {
+		if _, ok := ctx.stack.Lookup(arg[:i]); ok {
+			return nil
+		}
+	}
+
 	// Return as-is (literal string)
 	return arg
 }
